@@ -19,7 +19,9 @@
 
   `unicode.IsSpace/IsPrint` and `strconv.Unquote` are parameters (`Lex`).  The assumed contract of
   `strconv.Quote/Unquote` is the structure `QuoteContract` (hypotheses, never axioms); the instance
-  `xQuote/xUnquote` (every byte written `\xNN`) is proved to satisfy it, so it is not vacuous.
+  `xQuote/xUnquote` (every byte written `\xNN`) is proved to satisfy it, so it is not vacuous; and
+  `Glb.Props.C13b.go_contract` proves it for the transcription of the real `strconv.Quote/Unquote`
+  (`Glb/Model/StrconvQuote.lean`, tied to the standard library by the stream `quote`).
   Core Lean only (linked into the driver).
 -/
 import Glb.Basic
